@@ -128,7 +128,9 @@ func VerifC04YAMLTypes() {
 // loader and applied with the real rewriter to builders derived from a small schema; then what the
 // pipeline does with builders next (nil-check pass). Error or result, never a panic.
 func VerifC04YAMLVeneers() {
-	path := v.Str("path", "opts.level", "opts", "name", "", "opts.level.deeper", "nope", "opts.", ".", "tags", "other.x", "vars", "items")
+	// (a fork, not a symbolic string: MakePath splits the path and a 12-way string union is wider than the engine's bound)
+	paths := []string{"opts.level", "opts", "name", "", "opts.level.deeper", "nope", "opts.", ".", "tags", "other.x", "vars", "items"}
+	path := paths[v.Choose(len(paths))]
 	t := c04TypeDoc()
 	arg := c04Obj("name", "a", "type", t)
 	var value v.J
